@@ -355,6 +355,43 @@ func C08(c *fw.Ctx) {
 			}
 		}
 	}
+	// the same nests through the whole executable path (main: read, scan, parse, run) at depth 10^3 and
+	// 10^4: a truncated nest is rejected with status 65 and nothing runs, a complete one is not rejected
+	for _, nst := range nests {
+		if nst.name == "while-nest" {
+			continue // a complete one never terminates when run
+		}
+		for _, dep := range []int{1000, 10000} {
+			if !c.Mine() {
+				continue
+			}
+			head := model.KwPrint + " \"ran\";\n"
+			full := head + nst.prefix + rep(nst.open, dep) + nst.mid + rep(nst.close, dep) + nst.suffix + "\n"
+			o := h.RunFile(full, h.Opts{Fuel: int64(50_000_000)})
+			c.Eval("main\x00"+full, true)
+			base := fw.Replay{Mode: "file", Program: trunc(full, 300), CLI: true, InStdout: trunc(o.Stdout, 200), InStderr: trunc(o.Stderr, 300), InStatus: o.Status}
+			if !abnormal(c, o, "file", trunc(full, 200), base) && o.Status == 65 {
+				r := base
+				r.Sig = "C08|deep-through-main|accepted|" + nst.name
+				r.What = fmt.Sprintf("a derivable text nested %d deep is rejected when run through main", dep)
+				r.Expected, r.Observed = "not status 65", fmt.Sprintf("status 65 stderr %q", trunc(o.Stderr, 200))
+				c.Violate(r)
+			}
+			if nst.truncatedIsRejected {
+				tr := head + nst.prefix + rep(nst.open, dep) + nst.mid + rep(nst.close, dep-1) + nst.suffix + "\n"
+				o := h.RunFile(tr, h.Opts{Fuel: int64(50_000_000)})
+				c.Eval("main\x00"+tr, true)
+				base := fw.Replay{Mode: "file", Program: trunc(tr, 300), CLI: true, InStdout: trunc(o.Stdout, 200), InStderr: trunc(o.Stderr, 300), InStatus: o.Status}
+				if !abnormal(c, o, "file", trunc(tr, 200), base) && (o.Status != 65 || o.Stdout != "" || o.Stderr == "") {
+					r := base
+					r.Sig = "C08|deep-through-main|rejected|" + nst.name
+					r.What = fmt.Sprintf("a text nested %d deep with one closer missing must be rejected (65, a diagnostic, nothing run)", dep)
+					r.Expected, r.Observed = "status 65, a diagnostic, empty stdout", fmt.Sprintf("status %d stdout %q stderr %q", o.Status, trunc(o.Stdout, 60), trunc(o.Stderr, 200))
+					c.Violate(r)
+				}
+			}
+		}
+	}
 	// 255-parameter limit
 	if c.Mine() {
 		for _, n := range []int{1, 254, 255, 256, 300} {
